@@ -120,6 +120,10 @@ def build(cls_name, N, m, W, alpha, eps, ctype=None, model=None, **kw):
             a = cls(eps, 0.05, "stub", 0.01, **kw)
         elif cls_name == "VOGP_AD":
             a = cls(eps, 0.05, ContProblemStub(m), order, 0.01, **kw)
+        elif cls_name == "NaiveElimination":
+            a = cls(eps, 0.05, "stub", order, 0.01, **kw)
+        elif cls_name == "DecoupledGP":
+            a = cls("stub", order, 0.01, **kw)
         else:
             raise HarnessError(cls_name)
     return a
